@@ -400,6 +400,8 @@ class Parser(ExprParser):
             if self.have("COMMA"):
                 if self.have("VARARG"):
                     raise NotImplementedError("varargs")
+                if self.token.typ == "RPAREN":
+                    self.error_msg("Expected parameter after ','")
             else:
                 break
         self.mustbe("RPAREN")
